@@ -206,6 +206,18 @@ def gen_ir(g, rng, cov, n_modules=None, entry_later=False, with_aux=True):
                         else:
                             e = C(g.SymAddrAddr)(bnd_i64(rng), bnd_i64(rng), rng.choice(syms), rng.choice(syms), attrs)
                         bi.symbolic_expressions[rng.choice([0, 1, 2, 8, U64, bnd_u64(rng)])] = e
+                        if rng.random() < 0.35:
+                            # ... and in the same interval an expression with the SAME operands (class, offset, symbols) that differs
+                            # in its attributes only -- one of the two has none: equal operands are no reason to confuse the two
+                            other_attrs = set() if attrs else set(rng.sample(A, rng.choice([1, 2])))
+                            if isinstance(e, g.SymAddrConst):
+                                e2 = type(e)(e.offset, e.symbol, other_attrs)
+                            else:
+                                e2 = type(e)(e.scale, e.offset, e.symbol1, e.symbol2, other_attrs)
+                            free_keys = [k for k in (3, 4, 5, 6, 7, 9, 16, 24, 40) if k not in bi.symbolic_expressions]
+                            if free_keys:
+                                bi.symbolic_expressions[rng.choice(free_keys)] = e2
+                                cov.hit("expressions-same-operands-different-attributes")
         # entry point: own module or an earlier one (a later one is the recorded finding D7, only on request)
         if all_code and rng.random() < 0.6:
             m.entry_point = rng.choice(code) if (code and rng.random() < 0.8) else rng.choice(all_code)
